@@ -77,9 +77,76 @@ def direct(run, chk):
             bad += 1
         if bad > 5:
             break
+    direct.alias_pairs = aliasing_oracle(chk, random.Random(chk.seed + 41), 40 if chk.tier == "quick" else 600)
+
+
+def aliasing_pairs(rnd, n):
+    """(P, P'): P passes ONE array to a mutable and to a readonly formal of one call; P' is P with the readonly formal
+    replaced by the mutable one throughout.  Array arguments are passed by reference, so both formals name the caller's
+    array and the two programs must unroll to the same operations (P' is inside the visitor model; P is not)."""
+    out = []
+    for _ in range(n):
+        size = rnd.randint(2, 4)
+        body = []
+        for _ in range(rnd.randint(2, 5)):
+            c = rnd.random()
+            i, j = rnd.randrange(size), rnd.randrange(size)
+            if c < 0.35:
+                body.append("a[%d] = %d;" % (i, rnd.randint(3, 9)))
+            elif c < 0.55:
+                body.append("a[%d] = b[%d] + %d;" % (i, j, rnd.randint(1, 3)))
+            elif c < 0.75:
+                body.append("rx(b[%d]) qq;" % j)
+            elif c < 0.85:
+                body.append("rz(a[%d]) qq;" % j)
+            else:
+                body.append("inner(a);")
+        ret = rnd.choice(["b[%d]" % rnd.randrange(size), "a[%d] + b[%d]" % (rnd.randrange(size), rnd.randrange(size)), "b[0] * 2"])
+        init = ", ".join(str(rnd.randint(0, 2)) for _ in range(size))
+        head = gen.H3 + "qubit[2] q;\ndef inner(mutable array[int[32], %d] z) { z[%d] = z[0] + 10; }\n" % (size, size - 1)
+        tail = "array[int[32], %d] x = {%s};\n" % (size, init)
+        use = "rx(r) q[1];\n" + "".join("rz(x[%d]) q[1];\n" % k for k in range(size))
+        p1 = (head + "def f(mutable array[int[32], %d] a, readonly array[int[32], %d] b, qubit qq) -> int[32] { %s return %s; }\n" % (size, size, " ".join(body), ret)
+              + tail + "int[32] r = f(x, x, q[0]);\n" + use)
+        b2 = [st.replace("b[", "a[") for st in body]
+        p2 = (head + "def f(mutable array[int[32], %d] a, qubit qq) -> int[32] { %s return %s; }\n" % (size, " ".join(b2), ret.replace("b[", "a["))
+              + tail + "int[32] r = f(x, q[0]);\n" + use)
+        out.append((p1, p2))
+    return out
+
+
+def aliasing_oracle(chk, rnd, n):
+    import langcorr
+    pairs = aliasing_pairs(rnd, n)
+    bad = 0
+    for p1, p2 in pairs:
+        o1, o2 = langcorr.run_impl(p1, None), langcorr.run_impl(p2, None)
+        if o2.get("unroll") != "ok":
+            continue
+        aliasing_oracle.accepted = getattr(aliasing_oracle, "accepted", 0) + 1
+        if o1.get("unroll") != "ok" or o1.get("ops") != o2.get("ops"):
+            if bad < 3:
+                chk.violation("array_by_reference_%d" % bad, {"kind": "program-pair", "source": p1, "same_program_through_one_formal": p2,
+                              "what": "one array passed to a mutable and a readonly formal of one call: the program does not behave as if both formals named the caller's array",
+                              "got": str(o1.get("ops") if o1.get("unroll") == "ok" else o1.get("unroll"))[:600], "expected": str(o2.get("ops"))[:600]})
+            bad += 1
+    return len(pairs)
 
 
 def run(tier, seed, replay):
     if replay:
+        import json
+        r = json.load(open(replay))
+        if r.get("kind") == "program-pair":
+            import common
+            import langcorr
+            chk = common.Check(PROP, "quick", 0)
+            o1, o2 = langcorr.run_impl(r["source"], None), langcorr.run_impl(r["same_program_through_one_formal"], None)
+            print("two formals:", o1.get("unroll"), o1.get("ops"))
+            print("one formal: ", o2.get("unroll"), o2.get("ops"))
+            if o2.get("unroll") == "ok" and (o1.get("unroll") != "ok" or o1.get("ops") != o2.get("ops")):
+                chk.violation("replayed", r)
+            return chk.finish()
         return langcheck.replay_cmd(PROP, replay)
-    return langcheck.standard(PROP, tier, seed, cases(tier, seed), classify, direct=direct)
+    return langcheck.standard(PROP, tier, seed, cases(tier, seed), classify, direct=direct,
+                              extra_cov=lambda run: {"array_aliasing_pairs": getattr(direct, "alias_pairs", 0), "array_aliasing_pairs_accepted": getattr(aliasing_oracle, "accepted", 0)})
